@@ -647,6 +647,18 @@ func (env *SpecEnv) call(e *SExpr) specVal {
 			env.fail("boxed(nil)")
 		}
 		return specVal{fx.makeIface(x.t, x.typ), types.NewInterfaceType(nil, nil)}
+	case "deref":
+		// deref(p): the value stored in the cell p points to (non-struct element types)
+		x := env.expr(e.Args[0])
+		pt, ok := x.typ.Underlying().(*types.Pointer)
+		if !ok {
+			env.fail("deref() needs a pointer")
+		}
+		if _, isS := pt.Elem().Underlying().(*types.Struct); isS {
+			return specVal{fx.readObj(env.st, x.t, pt.Elem()), pt.Elem()}
+		}
+		hn, hs := fx.pheapName(pt.Elem())
+		return specVal{Select(fx.heapGet(env.st, hn, hs), x.t), pt.Elem()}
 	case "ptrof":
 		x := env.expr(e.Args[0])
 		return specVal{IfcPtr(x.t), tInt}
